@@ -218,4 +218,11 @@ func init() {
 
 	mut("C02", "a writer whose last commit rolled over skips the flush", "cesium/internal/domain/writer.go",
 		"	if *w.EnableAutoCommit && w.AutoIndexPersistInterval > 0 {\n		w.idx.mu.RLock()", "	if w.prevCommit.IsZero() {\n		return nil\n	}\n	if *w.EnableAutoCommit && w.AutoIndexPersistInterval > 0 {\n		w.idx.mu.RLock()", "C02.R6.close")
+
+	// ---------------- C20.R6
+	mut("C20", "re-subscription recycles the configured key slice", "cesium/streamer.go",
+		"				s.Channels = s.translateRequest(req).Channels", "				s.Channels = append(s.Channels[:0], s.translateRequest(req).Channels...)", "C20.R6.own")
+
+	mut("C02", "batch delete leaves the directory of a virtual channel in place", "cesium/delete.go",
+		"		err = db.removeChannel(ch)\n		if err != nil {\n			return\n		}\n\n		// Rename the files first, so we can avoid hogging the mutex while deleting the", "		err = db.removeChannel(ch)\n		if err != nil {\n			return\n		}\n		if vok {\n			continue\n		}\n\n		// Rename the files first, so we can avoid hogging the mutex while deleting the", "C02.R4.delete")
 }
